@@ -297,23 +297,28 @@ def namespace_check(step):
             out["problems"].append(["import-eolib", "eolib", f"{type(e).__name__}: {e}"])
             return out
     problems = out["problems"]
-    # (i) documented modules reachable by attribute access and identical to sys.modules
+    # (i) documented modules reachable by attribute access and identical to what the import system resolves.
+    # The attribute walks are all done first: importing a module explicitly would bind it on its parent
+    # and hide a path that `import eolib` alone had left unbound.
+    walked = {}
+    for modname in step["modules"]:
+        obj = eolib
+        for part in modname.split(".")[1:]:
+            try:
+                obj = getattr(obj, part)
+            except AttributeError:
+                problems.append(["module-path-missing", modname, f"attribute walk stops at {part!r}"])
+                obj = None
+                break
+        walked[modname] = obj
     for modname in step["modules"]:
         try:
             real = importlib.import_module(modname)
         except BaseException as e:  # noqa
             problems.append(["module-import", modname, f"{type(e).__name__}: {e}"])
             continue
-        obj = eolib
-        ok = True
-        for part in modname.split(".")[1:]:
-            try:
-                obj = getattr(obj, part)
-            except AttributeError:
-                problems.append(["module-path-missing", modname, f"attribute walk stops at {part!r}"])
-                ok = False
-                break
-        if ok and obj is not real:
+        obj = walked[modname]
+        if obj is not None and obj is not real:
             where = getattr(obj, "__name__", repr(obj)[:60])
             problems.append(["module-path", modname, f"attribute walk yields {where}"])
         # (ii) statement forms
